@@ -258,6 +258,7 @@ func closureKey(fn *ssa.Function) string {
 	for _, v := range fn.FreeVars {
 		fv = append(fv, canonType(v.Type(), 0)) // types only: captured variables may be renamed
 	}
+	sort.Strings(fv) // the order of first use inside the literal is incidental
 	return canonType(fn.Signature, 0) + "|" + strings.Join(fv, ",")
 }
 
